@@ -82,9 +82,13 @@ let kind_char = function
   | GUpd RibModel.UPass -> "o" | GEos _ -> "eos"
 
 let run_case (line : string) : string =
-  let evs = ref [] and hang = ref false and table = ref [] and full = ref false in
+  let evs = ref [] and hang = ref false and table = ref [] and full = ref false and wire = ref false in
   Stdlib.List.iter (fun s ->
       match words s with
+      (* T * : no parse table - the frames come from the PROVED BMP encoder (oracle bmpenc) and the parser of the model is
+         the decoder of that codec followed by the state machine's reading of the frame (BmpWireAbs.wire_msg; C06_wire_*,
+         C07_wire_cleanup_once) *)
+      | ["T"; "*"] -> full := true; wire := true
       | "T" :: rest ->
           full := true;
           Stdlib.List.iter (fun t ->
@@ -118,7 +122,7 @@ let run_case (line : string) : string =
     if Stdlib.List.length holds > 1 || Stdlib.List.length locks > 1 then failwith "at most one H and one L per case";
     if (holds <> [] || locks <> []) && gets <> [] then failwith "G is not combined with H or L";
     if holds <> [] && locks <> [] then failwith "H and L are not combined";
-    let parse fr = if !full then (match Stdlib.List.assoc_opt (hex_of fr) !table with
+    let parse fr = if !wire then BmpWireAbs.wire_msg fr else if !full then (match Stdlib.List.assoc_opt (hex_of fr) !table with
                                   | Some d when d <> "y" ->
                                       (* BmpStreamModel.parse_types_ok: what routecore's from_octets guarantees, and what every
                                          frame of a parse table satisfies (they come from the encoders) *)
@@ -156,7 +160,15 @@ let run_case (line : string) : string =
       | None -> "?" ^ string_of_int (int_of_n id)
       | Some i ->
           let o = function None -> "-" | Some x -> string_of_int (int_of_n x) in
-          Printf.sprintf "p%s.%s.%s%s" (o i.IngressModel.i_addr) (o i.IngressModel.i_asn) (o i.IngressModel.i_rib)
+          (* wire mode: BmpWireAbs.abs_addr = 2 * PipeRaw.bytes_code (the four octets of an IPv4 address) + V; shown as the
+             harness shows an address outside 192.0.2.0/24 *)
+          let oa = function
+            | Some x when !wire ->
+                let c = int_of_n x / 2 in
+                if int_of_n x mod 2 = 0 && c lsr 32 = 1 then Printf.sprintf "[%d.%d.%d.%d]" (c land 255) ((c lsr 8) land 255) ((c lsr 16) land 255) ((c lsr 24) land 255)
+                else "[v6]"
+            | x -> o x in
+          Printf.sprintf "p%s.%s.%s%s" (oa i.IngressModel.i_addr) (o i.IngressModel.i_asn) (o i.IngressModel.i_rib)
             (if i.IngressModel.i_parent = Some rid then "" else "!parent") in
     let show reg = function
       | GUpd (RibModel.UBulk ps) ->
